@@ -419,7 +419,6 @@ example : serial (.tcpShort "h:1") = 17241056920238101215 ∧
     name, whatever inputs the harness happens to generate. -/
 theorem hidden_state_reviewed :
     Gen.HiddenState.sitesIn ["decode/cpr.rs", "data/airports.rs"] =
-      [("data/airports.rs", "pub static AIRPORTS: Lazy<Vec<Airport>> ="),
-       ("data/airports.rs", "Lazy::new(|| serde_json::from_str(AIRPORTS_JSON).unwrap());")] := by decide
+      [("data/airports.rs", "pub static AIRPORTS:Lazy<Vec<Airport>>=Lazy::new(||serde_json::from_str(AIRPORTS_JSON).unwrap());")] := by decide
 
 end Rs1090.Props.C16
